@@ -82,7 +82,7 @@ def run_case(case: Dict[str, Any], ctx) -> None:
     ctx.count("spy:scale-calls", len(A.scale_trace))
     if A.scale_trace != B.scale_trace or A.scale_trace != C.scale_trace:
         ctx.violation(key("scale-factors-differ-between-draws"), f"{A.scale_trace} vs {B.scale_trace} vs {C.scale_trace}", cfg=cfg)
-    stol = 1e-11 if dtype == torch.float64 else tol
+    stol = 1e-11 if dtype == torch.float64 else 2 * tol  # fitted scalars of tiny low-precision tensors are noisy
     any_nonzero = False
     for name in A.b:
         bs = [fr.b.get(name) for fr in (A, B, C)]
